@@ -10,7 +10,11 @@
 //     and per object type, each paged fully with random page sizes; at random steps also the
 //     ReadChanges command, default page size, type-filtered descending, and far horizons;
 //   - horizon scenarios with the real clock: old writes, a pause, new writes, then reads with
-//     a horizon inside the pause (guard band; inconclusive timing is dropped, never reported).
+//     a horizon inside the pause (guard band; inconclusive timing is dropped, never reported):
+//     on the datastore, and through the ReadChanges command with a non-zero horizon, page
+//     sizes 1 / 2 / n/2 following continuation tokens to the end, a poll with the last token
+//     after further writes, and on sqlite the command's real one-minute horizon against
+//     changelog rows made two minutes older through a second connection.
 package main
 
 import (
@@ -27,6 +31,21 @@ func statf(w *rec.Writer) func(string) { return func(k string) { w.Stat(k, 1) } 
 
 func countOps(w *rec.Writer, rn *sg.Runner) {
 	for i, op := range rn.Res.Ops {
+		if op.Kind == sg.KindBackdate {
+			continue
+		}
+		if op.Kind == sg.KindHorizonCmd {
+			w.Stat("horizon_cmd_token_reads", 1)
+			if op.Poll {
+				w.Stat("horizon_cmd_polls", 1)
+			}
+			if rn.Res.Sql[i].Present && !rn.Res.Sql[i].Incon && (op.Real || (rn.Res.Mem[i].Present && !rn.Res.Mem[i].Incon)) {
+				w.Stat("horizon_cmd_token_reads_conclusive", 1)
+				w.Stat("horizon_cmd_entries_returned_sqlite", len(rn.Res.Sql[i].Asc))
+				w.Stat(fmt.Sprintf("horizon_cmd_page_size_%d", min(op.PS, 3)), 1)
+			}
+			continue
+		}
 		if op.Kind == sg.KindHorizon {
 			w.Stat("horizon_reads", 1)
 			if !rn.Res.Mem[i].Incon && !rn.Res.Sql[i].Incon {
@@ -79,26 +98,49 @@ func horizon(w *rec.Writer, seed uint64) {
 	defer rn.Close()
 	r := rec.NewRand(seed)
 	p := sg.Profile{Name: "horizon", Mode: 2, PBadItem: 10, PDupKey: 10, MaxItems: 4, KeyLimit: 12}
+	// old changes (tick 1); on sqlite they are additionally made two minutes older
 	for i := 0; i < r.Range(4, 9); i++ {
 		op := sg.GenWrite(r, p, rn.Present(), statf(w))
 		op.Tick = 1
 		rn.Do(op, false)
 	}
-	pause := 420
-	for i := 0; i < r.Range(1, 4); i++ {
+	nOld := 0
+	if n := len(rn.Res.Mem); n > 0 {
+		nOld = len(rn.Res.Mem[n-1].Asc)
+	}
+	rn.Do(sg.Op{Kind: sg.KindBackdate}, false)
+	// new changes (tick 3) after a pause; the scaled horizon lies inside the pause
+	pause, hms := 900, 600
+	for i := 0; i < r.Range(1, 3); i++ {
 		op := sg.GenWrite(r, p, rn.Present(), statf(w))
+		op.OnDup, op.OnMiss = sg.OptIgnore, sg.OptIgnore // so that new changes exist
 		op.Tick = 3
 		if i == 0 {
 			op.SleepMs = pause
 		}
 		rn.Do(op, false)
 	}
-	types := []string{"", "doc", "folder", "group"}
-	// a horizon inside the pause: exactly the old entries
-	rn.Do(sg.Op{Kind: sg.KindHorizon, Now: 3, H: 1, HMs: pause / 2, Type: rec.Pick(r, types)}, false)
-	// no horizon: everything; a horizon of an hour: nothing
+	types := []string{"", "", "doc", "folder", "group"}
+	pageSizes := []int{1, 2, nOld/2 + 1}
+	// datastore: exactly the old entries; everything; nothing
+	rn.Do(sg.Op{Kind: sg.KindHorizon, Now: 3, H: 1, HMs: hms, Type: rec.Pick(r, types)}, false)
 	rn.Do(sg.Op{Kind: sg.KindHorizon, Now: 3, H: 0, HMs: 0, Type: rec.Pick(r, types)}, false)
 	rn.Do(sg.Op{Kind: sg.KindHorizon, Now: 3, H: 100, HMs: 3600000, Type: rec.Pick(r, types)}, false)
+	// ReadChanges command with a non-zero horizon, following continuation tokens page by page
+	typ := rec.Pick(r, types)
+	rn.Do(sg.Op{Kind: sg.KindHorizonCmd, Now: 3, H: 1, HMs: hms, Type: typ, PS: rec.Pick(r, pageSizes)}, false)
+	// further writes (tick 5), then the usual poll with the last token
+	for i := 0; i < r.Range(1, 2); i++ {
+		op := sg.GenWrite(r, p, rn.Present(), statf(w))
+		op.OnDup, op.OnMiss = sg.OptIgnore, sg.OptIgnore
+		op.Tick = 5
+		rn.Do(op, false)
+	}
+	rn.Do(sg.Op{Kind: sg.KindHorizonCmd, Now: 5, H: 3, HMs: hms, Type: typ, PS: rec.Pick(r, pageSizes), Poll: true}, false)
+	// sqlite: the command's real one-minute horizon against the backdated rows, paged, then polled
+	typ2 := rec.Pick(r, types)
+	rn.Do(sg.Op{Kind: sg.KindHorizonCmd, Now: 5, H: 3, Real: true, Type: typ2, PS: rec.Pick(r, pageSizes)}, false)
+	rn.Do(sg.Op{Kind: sg.KindHorizonCmd, Now: 5, H: 3, Real: true, Type: typ2, PS: rec.Pick(r, pageSizes), Poll: true}, false)
 	countOps(w, rn)
 	w.Stat("histories_horizon", 1)
 	rn.Emit(w, "horizon", seed)
